@@ -23,6 +23,12 @@ func TestC36(t *testing.T) {
 	total := m.N(1920, 15360)
 	m.Cases("dialogue", total, func(i int64, r *rand.Rand) { dialogueCase(m, i, r) })
 
+	// truncated / oversized / wrong-length-field variants of every message type: a fixed enumeration
+	mal := malformedList()
+	m.Cases("malformed", len(mal), func(i int64, r *rand.Rand) { malformedCase(m, mal[i], r) })
+	m.Gate("malformed_packets_judged", len(mal), "every enumerated malformed packet was sent and the connection's fate observed")
+	m.Gate("malformed_extdata_between_data_and_extdata_header_on_live_channel", 4, "EXTENDED_DATA packets of 9..12 bytes (longer than the DATA header, shorter than their own) to a live channel")
+
 	// deterministic schedules (batch 0 only), last because a stall leaves goroutines behind
 	m.Each("loop-exit-race", m.N(1, 3), func(i int64, r *rand.Rand) { loopExitRace(m, i, r) })
 	if m.Batch() == 0 && !m.Replaying() {
